@@ -408,6 +408,9 @@ func (c *Ctx) exec(fr *Frame, in ssa.Instruction) {
 			c.violation("panic:nil-map-write", fr, "assignment to entry in nil map")
 			panic(pathEnd{"panic"})
 		}
+		if c.raceEnabled(fr) {
+			c.raceAccess(fr, m, true)
+		}
 		c.mapSet(fr, m, c.get(fr, in.Key), copyVal(c.get(fr, in.Value)))
 	case *ssa.Next:
 		c.set(fr, in, c.next(fr, in))
@@ -483,6 +486,9 @@ func (c *Ctx) concPtr(fr *Frame, p Ptr, why string) Ptr {
 
 func (c *Ctx) load(fr *Frame, p Ptr) Value {
 	if p.p != nil {
+		if c.raceEnabled(fr) {
+			c.raceAccess(fr, p.p, false)
+		}
 		return copyVal(*p.p)
 	}
 	if p.arr == nil {
@@ -514,6 +520,9 @@ func (c *Ctx) load(fr *Frame, p Ptr) Value {
 
 func (c *Ctx) store(fr *Frame, p Ptr, v Value) {
 	if p.p != nil {
+		if c.raceEnabled(fr) {
+			c.raceAccess(fr, p.p, true)
+		}
 		c.assign(p.p, v)
 		return
 	}
@@ -1097,6 +1106,9 @@ func (c *Ctx) lookup(fr *Frame, in *ssa.Lookup) Value {
 		return c.iteChain(i, bs)
 	}
 	m := x.(*Map)
+	if m != nil && c.raceEnabled(fr) {
+		c.raceAccess(fr, m, false)
+	}
 	v, ok := c.mapGet(fr, m, c.get(fr, in.Index))
 	if !ok {
 		v = c.zero(in.X.Type().Underlying().(*types.Map).Elem())
@@ -1122,6 +1134,9 @@ func (c *Ctx) rangeInit(fr *Frame, in *ssa.Range) Value {
 	switch x := x.(type) {
 	case *Map:
 		it := &rangeIter{m: x}
+		if x != nil && c.raceEnabled(fr) {
+			c.raceAccess(fr, x, false)
+		}
 		if x != nil {
 			it.snap = append(it.snap, x.entries...)
 		}
